@@ -365,6 +365,8 @@ fn many_instances(sets: &mut Sets, st: &mut Stats, n: usize) {
 
 pub fn run(tier: &str, _seed: u64, threads: usize) -> Stats {
     let n_total = if tier == "thorough" { 400_000 } else { 64_000 };
+    // P-256 and ML-KEM-768 are several times slower: same workload, fewer repetitions
+    let n_total = if crate::wire::CONFIG.starts_with('B') { n_total / 5 } else { n_total };
     // 4 instances, each shared by threads/4 threads (cross-thread and cross-instance freshness)
     let per = n_total / threads.max(1);
     let all = Arc::new(Mutex::new((Sets::default(), Stats::default())));
